@@ -64,12 +64,50 @@ class Contract:
         return self._apply(I, f, args, kwargs)
 
 
+def _has_lambda(t):
+    stack, seen = [t], set()
+    while stack:
+        x = stack.pop()
+        if x.get_id() in seen:
+            continue
+        seen.add(x.get_id())
+        if z3.is_quantifier(x):
+            return True
+        stack.extend(x.children())
+    return False
+
+
+def _pats_ok(patterns):
+    for p in patterns or []:
+        if _has_lambda(p):
+            return False
+    return True
+
+
 def forall(vars_, body, patterns=None):
     if not isinstance(vars_, (list, tuple)):
         vars_ = [vars_]
+    if patterns and not _pats_ok(patterns):
+        patterns = None
     if patterns:
-        return z3.ForAll(list(vars_), body, patterns=patterns)
+        try:
+            return z3.ForAll(list(vars_), body, patterns=patterns)
+        except z3.Z3Exception:      # e.g. a pattern over a lambda-defined array: let z3 infer
+            pass
     return z3.ForAll(list(vars_), body)
+
+
+def exists(vars_, body, patterns=None):
+    if not isinstance(vars_, (list, tuple)):
+        vars_ = [vars_]
+    if patterns and not _pats_ok(patterns):
+        patterns = None
+    if patterns:
+        try:
+            return z3.Exists(list(vars_), body, patterns=patterns)
+        except z3.Z3Exception:
+            pass
+    return z3.Exists(list(vars_), body)
 
 
 def implies(a, b):
